@@ -36,12 +36,12 @@ scalar_t function_chained_cb3I_t::do_vgrad(vector_cmap_t x, vector_map_t gx) con
         {
             const auto [v1, v2, v3] = values(i);
 
-            if (v1 > std::max(v2, v3))
+            if (v1 >= std::max(v2, v3))
             {
                 gx(i) += 4.0 * cube(x(i));
                 gx(i + 1) += 2.0 * x(i + 1);
             }
-            else if (v2 > std::max(v1, v3))
+            else if (v2 >= std::max(v1, v3))
             {
                 gx(i) -= 4.0 - 2.0 * x(i);
                 gx(i + 1) -= 4.0 - 2.0 * x(i + 1);
